@@ -88,8 +88,8 @@ structure Samp where
   k : Int
   deriving Repr, DecidableEq
 
-/-- `sampler.Next`. The floating point part is an input: `skip = none` when `skip` is ±Inf or NaN,
-else `some ⌊log(u)/log(1-w)⌋`; `rnd` is what `r.Intn(k)` returns. -/
+/-- `sampler.Next`. The floating point part is an input: `skip = none` when the guard of the code holds (`skip` is ±Inf or NaN, or
+it would carry the index to the maximum `int` or beyond: `skip >= float64(math.MaxInt - s.i)`), else `some ⌊log(u)/log1p(-w)⌋`; `rnd` is what `r.Intn(k)` returns. -/
 def Samp.next (s : Samp) (skip : Option Int) (rnd maxInt : Int) : (Int × Int) × Samp :=
   if sampFill s.i s.k s.first then
     let j := sampFillJ s.i s.k s.first
